@@ -444,7 +444,7 @@ func (ex *Exec) compositeLit(st *State, e *ast.CompositeLit, k func(*State, Val)
 			kv := e.Elts[i].(*ast.KeyValueExpr)
 			ex.evalMaybeLit(st, kv.Key, u.Key(), func(st2 *State, kk Val) {
 				ex.evalMaybeLit(st2, kv.Value, u.Elem(), func(st3 *State, v Val) {
-					rec(st3, i+1, mapStore(m, ex.convert(st3, kk, u.Key()).T, ex.convert(st3, v, u.Elem()).T))
+					rec(st3, i+1, ex.share(st3, mapStore(ex.share(st3, m), ex.convert(st3, kk, u.Key()).T, ex.convert(st3, v, u.Elem()).T)))
 				})
 			})
 		}
